@@ -322,6 +322,12 @@ def _check_make_args_unique(run: Run, ctx, m) -> None:
                             if (isinstance(a_, ast.Name) and a_.id == "arg_name") or (isinstance(a_, ast.Lambda) and not a_.args.args and isinstance(a_.body, ast.Call) and isinstance(a_.body.func, ast.Name) and a_.body.func.id == "arg_name" and not a_.body.args):
                                 fresh.append(c)
     run.check(len(fresh) >= 1, "C02.R2", vl, vl.node, "outermost lambda gets arg_name() names", "replace_args no longer draws new names from arg_name()")
+    # every kind of parameter of a nested lambda re-binds its name: all five are put on the renaming stack (D42)
+    from ..lib import attrs_in_call_closure as _aicc
+
+    kinds_ = _aicc(m, vl, LAMBDA_ARG_KINDS)
+    missing_ = [k for k in LAMBDA_ARG_KINDS if k not in kinds_]
+    run.check(not missing_, "C02.R2", vl, vl.node, "replace_args.visit_Lambda hides the names of all five parameter kinds", f"replace_args.visit_Lambda never looks at the lambda's {', '.join(missing_)}: a nested lambda that re-binds a name through such a parameter does not hide it, so the renaming reaches into its body ((lambda a: (lambda *a: a)(1))(5) becomes (lambda *a: 5)(1))", "posonlyargs + args + kwonlyargs + vararg + kwarg", key="renamer ignores parameter kinds")
     # new arg list built from the mapping's new names
     stores = [n for n in own_nodes(vl) if isinstance(n, ast.Assign) and any(isinstance(t, ast.Attribute) and t.attr == "args" for t in n.targets)]
     run.check(len(stores) == 1, "C02.R2", vl, vl.node, "the lambda's parameter list is rebuilt from the new names", "replace_args.visit_Lambda does not rebuild the parameter list")
